@@ -1099,7 +1099,13 @@ type tkC09 struct {
 func runTokenC09(run *ev.Run, c int) {
 	rng := run.Rng
 	bal := sdk.NewCoins(sdk.NewCoin(rig.BondDenom, toInt(pow2(150))))
-	r := rig.New(rig.Options{Seed: fmt.Sprintf("tk9-%d-%d", run.Seed, c), NumAccounts: 6, Balances: bal, InflationOff: true, SubSecond: c%2 == 1})
+	// every fourth case is born with 130 more tokens (all held by the first account): counts beyond a page of a hundred
+	opts := rig.Options{Seed: fmt.Sprintf("tk9-%d-%d", run.Seed, c), NumAccounts: 6, Balances: bal, InflationOff: true, SubSecond: c%2 == 1}
+	manyBorn := c%4 == 3
+	if manyBorn {
+		opts.GenesisMutator = tkManyTokensGenesis(130)
+	}
+	r := rig.New(opts)
 	g := newTkGen(run, r, nil, true)
 	r.Snapshot = g.snap
 	d := &tkC09{run: run, r: r, g: g}
@@ -1137,9 +1143,25 @@ func runTokenC09(run *ev.Run, c int) {
 				}
 			}
 		}
+		if manyBorn && (b == 17 || b == 60) {
+			// the holder burns a little of every token the chain was born with: more than a hundred burn tallies
+			holder := r.Acc(0)
+			for _, t := range g.s.Tokens {
+				if !strings.HasPrefix(t.Symbol, "gt") || g.s.balOf(holder.Addr.String(), t.MinUnit).Sign() == 0 {
+					continue
+				}
+				if tx, ok := g.mk(holder, &tkTag{Kind: "burn", Role: "holder", Var: "a-little-of-every-genesis-token", Sym: t.Symbol}, &v1.MsgBurnToken{Coin: coin(t.MinUnit, big.NewInt(int64(1+b%7))), Sender: holder.Addr.String()}); ok {
+					txs = append(txs, tx)
+				}
+			}
+		}
 		br := r.DeliverBlock(time.Duration(1+rng.Intn(20))*time.Second, txs)
 		d.observe(br)
+		d.burnQuery(br.Height)
 		g.resync()
+	}
+	if manyBorn {
+		run.Require("burn-tallies-listed-by-the-query(max)>100", 1)
 	}
 	for _, k := range []string{
 		"issue-ok", "mint-ok", "edit-ok", "burn-ok", "transfer-ok", "params-ok",
@@ -3154,3 +3176,77 @@ func (w *tokenWorkload) Observe(br *rig.BlockRecord) {
 }
 
 var _ Workload = (*tokenWorkload)(nil)
+
+// tkManyTokensGenesis adds n tokens gt000.. (min units gm000.., scales 0..3, 1000 main units each, mintable up to 10^6) held
+// by the first genesis account.
+func tkManyTokensGenesis(n int) func(cdc codec.Codec, gs map[string]json.RawMessage) {
+	return func(cdc codec.Codec, gs map[string]json.RawMessage) {
+		var ag authtypes.GenesisState
+		cdc.MustUnmarshalJSON(gs[authtypes.ModuleName], &ag)
+		accs, err := authtypes.UnpackAccounts(ag.Accounts)
+		if err != nil || len(accs) == 0 {
+			panic(fmt.Sprintf("token workload: cannot read genesis accounts: %v", err))
+		}
+		var bg banktypes.GenesisState
+		cdc.MustUnmarshalJSON(gs[banktypes.ModuleName], &bg)
+		var tg v1.GenesisState
+		cdc.MustUnmarshalJSON(gs[tokentypes.ModuleName], &tg)
+		holder := accs[0].GetAddress().String() // genesis accounts are listed in the rig's account order
+		// their owner is an account nobody has a key for (the director's owner intents keep working on the tokens issued by
+		// messages); the coins are with the first account, and any holder may burn
+		owner := sdk.AccAddress([]byte("tk-genesis-token-owner")).String()
+		add := sdk.NewCoins()
+		for i := 0; i < n; i++ {
+			scale := uint32(i % 4)
+			tg.Tokens = append(tg.Tokens, v1.Token{Symbol: fmt.Sprintf("gt%03d", i), Name: fmt.Sprintf("genesis token %d", i), Scale: scale, MinUnit: fmt.Sprintf("gm%03d", i), InitialSupply: 1000, MaxSupply: 1_000_000, Mintable: i%5 != 0, Owner: owner})
+			add = add.Add(sdk.NewCoin(fmt.Sprintf("gm%03d", i), toInt(new(big.Int).Mul(big.NewInt(1000), tkPow10(scale)))))
+		}
+		for i := range bg.Balances {
+			if bg.Balances[i].Address == holder {
+				bg.Balances[i].Coins = bg.Balances[i].Coins.Add(add...)
+			}
+		}
+		bg.Supply = bg.Supply.Add(add...)
+		gs[banktypes.ModuleName] = cdc.MustMarshalJSON(&bg)
+		gs[tokentypes.ModuleName] = cdc.MustMarshalJSON(&tg)
+	}
+}
+
+// burnQuery: what the module's TotalBurn query reports is the tally users see; it must list every burned denomination with
+// the sum of its burns (the per-transaction monitor reads the records themselves).
+func (d *tkC09) burnQuery(h int64) {
+	run := d.run
+	resp, err := d.r.K.Token.TotalBurn(d.r.Ctx(), &v1.QueryTotalBurnRequest{})
+	if err != nil {
+		run.Violation("C09:token:burn-tally:query-fails", map[string]any{"height": h}, "TotalBurn query fails at height %d: %v", h, err)
+		return
+	}
+	run.Eval(1)
+	got := map[string]*big.Int{}
+	for _, c := range resp.BurnedCoins {
+		if prev, dup := got[c.Denom]; dup {
+			prev.Add(prev, bi(c.Amount))
+		} else {
+			got[c.Denom] = bi(c.Amount)
+		}
+	}
+	if n := int64(len(got)); n > run.Counters["burn-tallies-listed-by-the-query(max)"] {
+		run.Counters["burn-tallies-listed-by-the-query(max)"] = n
+		if n > 100 {
+			run.Counters["burn-tallies-listed-by-the-query(max)>100"] = 1
+		}
+	}
+	for dn, want := range d.model.burned {
+		if want.Sign() == 0 {
+			continue
+		}
+		g := got[dn]
+		if g == nil {
+			g = bigZero
+		}
+		if g.Cmp(want) != 0 {
+			run.Violation("C09:token:burn-tally:query", map[string]any{"height": h, "denom": dn, "listed": len(got), "burned_denoms": len(d.model.burned)}, "TotalBurn query at height %d reports %s of %s burned, the sum of its burns is %s (%d denominations listed, %d have burns)", h, g, dn, want, len(got), len(d.model.burned))
+			return
+		}
+	}
+}
